@@ -81,7 +81,18 @@ def mon_arrive_blocks(case, lines):
     return None
 
 
-MONITORS = {'early_return': mon_early_return, 'lost_wakeup': mon_lost_wakeup, 'arrive_blocks': mon_arrive_blocks}
+def mon_mo_weakened(case, lines):
+    """C07/C10: every atomic operation on the counter is seq_cst; the unlocked fast-path load of wait() must at least
+    acquire and the decrement must at least release (LatchViews.fast_path_relaxed_refuted / _rmw_refuted give the
+    racy history for the relaxed variants)"""
+    for i, l in enumerate(lines):
+        if len(l) == 5 and l[0] >= 0 and l[1] in (K['LOAD'], K['STORE'], K['RMW'], K['XCHG'], K['CAS_OK'], K['CAS_FAIL']) and l[4] != 5:
+            return ('atomic operation (kind %d) at trace line %d has memory order %d, not seq_cst: with a relaxed fast-path load or '
+                    'decrement the waiter is not ordered after the arrivals (Coq witness LatchViews.fast_path_relaxed_refuted)' % (l[1], i, l[4]))
+    return None
+
+
+MONITORS = {'mo_weakened': mon_mo_weakened, 'early_return': mon_early_return, 'lost_wakeup': mon_lost_wakeup, 'arrive_blocks': mon_arrive_blocks}
 
 
 def gen_small(rng, spec):
